@@ -197,7 +197,12 @@ def evaluate(e, env, funs=None):
         if e[1] == '*':
             return a * b
         if e[1] == '/':
-            return a / b
+            try:
+                return a / b
+            except ZeroDivisionError:   # IEEE semantics, as numpy has them
+                if a == 0 or a != a:
+                    return float('nan')
+                return math.copysign(math.inf, a) * math.copysign(1.0, b)
     if t == 'neg':
         return -evaluate(e[1], env, F)
     if t == 'pow':
